@@ -23,17 +23,23 @@ import inspect
 import warnings
 
 RULE = ("part 1 exhaustive over scenarios = (services in the configuration, Companion credentials, AirPlay video / "
-        "MRP-tunnel / unified-RAOP flags, which queued SetupData answer connect() with False): the 31 native sets, all 180 "
-        "(set-up set, failing proper subset) pairs, 48 tunnel/unified configurations each with every single failing "
-        "connect, plus seeded random ones; x {no holder, each of 5 holders} x every member, then again after each connected "
+        "MRP-tunnel / unified-RAOP flags, empty or real TXT records, which queued SetupData answer connect() with False): "
+        "the 31 native sets (both TXT variants, both video flags), all 180 (set-up set, failing proper subset) pairs, 48 "
+        "tunnel/unified configurations all connecting (both TXT variants) and with every single failing connect, plus seeded "
+        "random ones; the device object comes from the real pyatv.connect() and a connected protocol takes over through the "
+        "core.takeover wired there; x {no holder, each of 5 holders} x every member with default-style arguments and with "
+        "every other value of its enum-typed / optional parameters (from the signatures); then again after each connected "
         "protocol published volume/output devices/focus/play state with exactly the published values as arguments (twice, "
         "and under a takeover); non-trivial = the call is not served by the first connected protocol of the plain "
         "priority list. part 2: random histories of takeover/release (>=30% failing takeovers by construction) interleaved "
         "with state updates; non-trivial = history with at least one failing takeover and one release; "
-        "distinct = (scenario, holder, publisher, member) resp. (scenario, op list)")
+        "distinct = (scenario, holder, member incl. argument variant) / (scenario, holder, publisher) resp. (scenario, op list)")
 ASSUMPTIONS = [
     "SetupData.connect/close are replaced by coroutines answering True/False; interface instances are the real ones from "
-    "the real set-up loop of pyatv.connect (native setup(), MRP over the AirPlay tunnel, RAOP set up by AirPlay), never connected",
+    "the real pyatv.connect() (native setup(), MRP over the AirPlay tunnel, RAOP set up by AirPlay), never connected; only "
+    "pyatv.PROTOCOLS is wrapped to swap SetupData.connect/close and to note the Core objects pyatv.connect created",
+    "a takeover 'by protocol p' is performed through the takeover method of the Core that p's registered instances hold (else "
+    "the Core pyatv.connect created for p); for a protocol the device is not connected with, FacadeAppleTV.takeover is called",
     "the connected set is the set of protocols whose SetupData.connect answered True (first SetupData per protocol wins, as in "
     "FacadeAppleTV.connect); a connect() that raises aborts pyatv.connect and leaves no usable device object: not enumerated",
     "overriding members are replaced on the protocol classes by recorders for the duration of the run (restored afterwards)",
@@ -77,8 +83,8 @@ def scenario(services=None, fail=(), **kw):
 
 
 def scen_key(sc):
-    return "svc=%s;cc=%d;v=%d;tun=%d;uni=%d;fail=%s" % (
-        "+".join(sc["services"]), sc["companion_creds"], sc["video"], sc["tunnel"], sc["unified"],
+    return "svc=%s;cc=%d;v=%d;tun=%d;uni=%d;txt=%d;fail=%s" % (
+        "+".join(sc["services"]), sc["companion_creds"], sc["video"], sc["tunnel"], sc["unified"], sc.get("txt", False),
         ".".join(map(str, sc["fail"])) or "-")
 
 
@@ -121,14 +127,17 @@ def all_scenarios(patches, rng=None, extra=0):
     SetupData of the queue failing; `extra` random ones with several failures."""
     out = native_scenarios()
     out += [scenario(S, video=False) for S in subsets() if "AirPlay" in S]
+    out += [scenario(S, txt=True) for S in subsets()]          # services announcing real TXT records
     out += failing_connect_scenarios()
     for cfg in path_configs():
         n = len(World(patches, scenario(**cfg)).built.queue)
         out.append(scenario(**cfg))
+        out.append(scenario(txt=True, **cfg))
         out += [scenario(fail=[k], **cfg) for k in range(n)]
     for _ in range(extra):
         cfg = dict(rng.choice(path_configs()))
         cfg["video"] = rng.chance(0.7)
+        cfg["txt"] = rng.chance(0.5)
         n = len(World(patches, scenario(**cfg)).built.queue)
         fail = [k for k in range(n) if rng.chance(0.35)]
         out.append(scenario(fail=fail, **cfg))
@@ -236,50 +245,44 @@ class Patches:
         self.saved = []
 
 
-async def _connected():
-    return True
-
-
-async def _refused():
-    return False
-
-
 class World:
-    """A real FacadeAppleTV taken through pyatv.connect's own set-up loop for a configuration
-    and then `connect()`ed without network: SetupData.connect answers True, or False at the
-    queue positions listed in the scenario.  `S` = the protocols the device is connected with."""
+    """A real device object obtained from the real `pyatv.connect()` for a configuration
+    (tools/gen/c01.build_world: no network, SetupData.connect answers True, or False at the
+    queue positions listed in the scenario).  `S` = the protocols the device is connected with."""
 
     def __init__(self, patches, sc):
         from pyatv.const import Protocol
-        from tools.gen.c01 import build_world
+        from tools.gen.c01 import build_world, reachable_cores
 
         self.p = patches
         self.sc = sc
         self.video = sc["video"]
         spec = {k: v for k, v in sc.items() if k != "fail"}
-        self.built = build_world(patches.loop, spec)
+        self.built = build_world(patches.loop, spec, fail=tuple(sc["fail"]))
         patches.ensure(self.built)
         self.atv = self.built.atv
         self.Protocol = Protocol
         patches.owner.clear()
         self.connected = {}      # protocol name -> SetupData that connected (first one wins)
+        self.asking_core = {}    # protocol name -> the Core its registered instances take over through
         self.fail = [k for k in sc["fail"] if k < len(self.built.queue)]
-        for k, (_origin, sd) in enumerate(self.built.queue):
+        for k, (origin, sd) in enumerate(self.built.queue):
             ok = k not in self.fail
             name = sd.protocol.name
             mine = ok and name not in self.connected
             if mine:
                 self.connected[name] = sd
+                held = reachable_cores(sd)
+                # no Core held by its instances: the one pyatv.connect created for this very protocol;
+                # a protocol set up by another one (tunnelled MRP) whose code holds no Core cannot ask at all
+                self.asking_core[name] = held[0] if held else (self.built.cores[origin] if origin == sd.protocol else None)
             for inst in sd.interfaces.values():
                 patches.owner[id(inst)] = name if mine else f"not-connected:{name}#{k}"
-            self.atv.add_protocol(sd._replace(connect=_connected if ok else _refused, close=lambda: set()))
         self.S = [p for p in TEXT_ORDER if p in self.connected]
-        self.connect_error = None
-        try:
-            patches.loop.run_until_complete(self.atv.connect())
-        except Exception as e:   # e.g. nothing to connect to
-            self.connect_error = type(e).__name__
-        self.relayers = {b.__name__: self.atv._interfaces[b] for b in patches.iface_classes}
+        self.connect_error = type(self.built.error).__name__ if self.built.error is not None else None
+        self.relayers = {}
+        if self.atv is not None:
+            self.relayers = {b.__name__: self.atv._interfaces[b] for b in patches.iface_classes}
         self.env = None
 
     def genuine(self, proto, iface, name):
@@ -297,11 +300,11 @@ class World:
         """Protocol `proto` reports volume, output devices, keyboard focus and play state on the
         internal state dispatcher; later calls reuse exactly these values as arguments."""
         from pyatv import const, interface
-        from pyatv.core import ProtocolStateDispatcher, UpdatedState
+        from pyatv.core import UpdatedState
 
         env = {"volume": 20.0 + (7 * k) % 70, "device": "dev-%d" % k, "position": 3 + k,
                "shuffle": const.ShuffleState.Songs, "repeat": const.RepeatState.All, "publisher": proto}
-        disp = ProtocolStateDispatcher(self.Protocol[proto], self.built.dispatcher)
+        disp = self.built.dispatcher_for(self.Protocol[proto])
 
         async def go():
             disp.dispatch(UpdatedState.Volume, env["volume"])
@@ -321,10 +324,10 @@ class World:
         return env
 
     # -- observation -------------------------------------------------------------------
-    def _args(self, iface, name):
+    def _args(self, iface, name, plain=False):
         import enum
 
-        env = self.env
+        env = None if plain else self.env
         fn = self.p.bases[iface].__dict__[name]
         args = []
         for prm in list(inspect.signature(fn).parameters.values())[1:]:
@@ -345,7 +348,53 @@ class World:
                 args.append(env["position"] if env else 1)
         return args
 
-    async def _call(self, iface, name):
+    def variants(self, iface, name):
+        """Argument variants of a member, one parameter changed at a time, taken from the
+        signature in pyatv.interface: every other value of an enum-typed parameter, a flipped
+        bool, a value for a parameter defaulting to None, another number.  [(label, kwargs)]"""
+        import dataclasses
+        import enum
+        import typing
+
+        key = (iface, name)
+        cache = self.p.__dict__.setdefault("_variants", {})
+        if key in cache:
+            return cache[key]
+        fn = self.p.bases[iface].__dict__[name]
+        out = []
+        if not isinstance(fn, property):
+            base = dict(zip([p.name for p in list(inspect.signature(fn).parameters.values())[1:]
+                             if p.kind not in (p.VAR_POSITIONAL, p.VAR_KEYWORD) and p.default is p.empty],
+                            self._args(iface, name, plain=True)))
+            for prm in list(inspect.signature(fn).parameters.values())[1:]:
+                if prm.kind in (prm.VAR_POSITIONAL, prm.VAR_KEYWORD, prm.POSITIONAL_ONLY):
+                    continue
+                ann, dflt = prm.annotation, prm.default
+                cands = [a for a in typing.get_args(ann) if a is not type(None)] if typing.get_origin(ann) is typing.Union else [ann]
+                cur = base.get(prm.name, dflt)
+                values = []
+                if isinstance(dflt, enum.Enum) or (isinstance(ann, type) and issubclass(ann, enum.Enum)):
+                    values = [v for v in (type(dflt) if isinstance(dflt, enum.Enum) else ann) if v != cur]
+                elif isinstance(dflt, bool):
+                    values = [not dflt]
+                elif dflt is None:
+                    c = cands[0] if cands and isinstance(cands[0], type) else None
+                    if c is not None and dataclasses.is_dataclass(c):
+                        values = [c()]
+                    elif c is float:
+                        values = [7.0]
+                    elif c is str:
+                        values = ["x"]
+                    else:
+                        values = [100]
+                elif isinstance(dflt, (int, float)):
+                    values = [dflt + 15]
+                for v in values:
+                    out.append(("%s=%s" % (prm.name, getattr(v, "name", v if not dataclasses.is_dataclass(v) else "given")), {prm.name: v}))
+        cache[key] = out
+        return out
+
+    async def _call(self, iface, name, override=None):
         from pyatv import exceptions
 
         log = self.p.log
@@ -356,7 +405,17 @@ class World:
             if isinstance(static, property):
                 getattr(fo, name)
             else:
-                res = getattr(fo, name)(*self._args(iface, name))
+                args, kwargs = self._args(iface, name), {}
+                if override:
+                    fn = self.p.bases[iface].__dict__[name]
+                    required = [p.name for p in list(inspect.signature(fn).parameters.values())[1:]
+                                if p.kind not in (p.VAR_POSITIONAL, p.VAR_KEYWORD) and p.default is p.empty]
+                    for k, v in override.items():
+                        if k in required and required.index(k) < len(args):
+                            args[required.index(k)] = v
+                        else:
+                            kwargs[k] = v
+                res = getattr(fo, name)(*args, **kwargs)
                 if inspect.isawaitable(res):
                     await res
         except exceptions.NotSupportedError:
@@ -369,16 +428,21 @@ class World:
             return "multi:" + "+".join("%s/%s.%s" % r for r in log)
         return log[0][0]
 
-    async def _table(self):
+    async def _table(self, variants):
         out = {}
         for iface in NINE:
             for name in self.p.members[iface]:
                 out[f"{iface}.{name}"] = await self._call(iface, name)
+                if variants:
+                    for label, override in self.variants(iface, name):
+                        out[f"{iface}.{name}[{label}]"] = await self._call(iface, name, override)
         return out
 
-    def table(self):
+    def table(self, variants=True):
+        """which protocol's instance executed each member, invoked through the device object with
+        default-style arguments and (variants) with every other value of its enum / optional parameters"""
         with warnings.catch_warnings(record=True):   # pyatv.support.deprecated re-enables the filter itself
-            return self.p.loop.run_until_complete(self._table())
+            return self.p.loop.run_until_complete(self._table(variants))
 
     def gate_open(self):
         from pyatv.const import FeatureName, FeatureState
@@ -397,11 +461,17 @@ class World:
         return out
 
     def takeover(self, proto, ifaces):
-        """ifaces: interface names or '?' (an object that is no interface)"""
+        """Protocol `proto` takes over `ifaces` (interface names or '?' = an object that is no
+        interface) the way its own code does: through the `takeover` method of the Core that
+        pyatv.connect() wired for it and that its registered instances hold.  A protocol the
+        device is not connected with has no such Core: FacadeAppleTV.takeover is called in its name."""
         from pyatv import exceptions
 
         objs = [self.p.bases[i] if i != "?" else object() for i in ifaces]
+        core = self.asking_core.get(proto)
         try:
+            if core is not None:
+                return "ok", core.takeover(*objs)
             return "ok", self.atv.takeover(self.Protocol[proto], *objs)
         except exceptions.InvalidStateError:
             return "invalid", None
@@ -423,9 +493,9 @@ def judge(ctx, world, holders, observed, case, kind):
     gate = None
     S = world.S
     for key, got in observed.items():
-        iface, name = key.split(".", 1)
+        iface, name = key.split("[")[0].split(".", 1)
         want = expected(world, holders.get(iface), iface, name)
-        if key == "Stream.play_url" and got == "!" and want != "!":
+        if key.split("[")[0] == "Stream.play_url" and got == "!" and want != "!":
             if gate is None:
                 gate = world.gate_open()
             if not gate:
@@ -479,7 +549,7 @@ def run_static(ctx, patches, scenarios, full_env):
                 if status != "ok":
                     ctx.disagree({"scenario": sc, "t": t}, status, "ok", where="takeover of all interfaces")
                     continue
-            table = world.table()
+            table = world.table(variants=pub is None)
             if release:
                 release()
             env = None if pub is None else {"publisher": pub[0], "volume": world.env["volume"]}
@@ -489,6 +559,7 @@ def run_static(ctx, patches, scenarios, full_env):
     for world, t, env, table in obs:
         S, sc = world.S, world.sc
         model = model_view(answers[f"table {set_bits(S)} {t or '-'} {1 if world.video else 0}"])
+        model = {k: model.get(k.split("[")[0]) for k in table}     # the model's routing does not depend on arguments
         case = {"kind": "call", "scenario": sc, "t": t, "env": env}
         if model != table:
             diff = {k: (table.get(k), model.get(k)) for k in set(table) | set(model) if table.get(k) != model.get(k)}
@@ -496,6 +567,12 @@ def run_static(ctx, patches, scenarios, full_env):
         ctx.validated(len(table))
         judge(ctx, world, {i: t for i in NINE}, table, case, "call")
         plain = next(p for p in TEXT_ORDER if p in S)
+        if env is not None:
+            # state-update rounds: one case per round (every member was invoked and judged above)
+            ctx.case([scen_key(sc), t, env["publisher"], "all-members"], True)
+            ctx.note("calls-after-state-update", len(table))
+            ctx.note("args:reused-from-state-update")
+            continue
         for key, got in table.items():
             nontrivial = got != plain
             ctx.case([scen_key(sc), t, env and env["publisher"], key], nontrivial,
@@ -598,7 +675,7 @@ def run_history(ctx, patches, sc, ops):
             else:
                 head = "no-token"
         holders = world.holders()
-        table = world.table()
+        table = world.table(variants=step % 2 == 0)
         obs.append((head, holders, table, dict(tracked)))
         multi = {i: h for i, h in holders.items() if "+" in h}
         case = {"kind": "history", "scenario": sc, "ops": ops, "step": step,
@@ -619,6 +696,8 @@ def compare_history(ctx, S, ops, obs, answers):
         m_head = " ".join(parts[:-2]) if len(parts) >= 3 else ans
         m_hold = parse_table(parts[-2]) if len(parts) >= 3 else None
         m_table = model_view(parts[-1]) if len(parts) >= 3 else None
+        if m_table is not None:
+            m_table = {k: m_table.get(k.split("[")[0]) for k in table}
         if (m_head, m_hold, m_table) != (head, holders, table):
             diff = None
             if m_table is not None and m_table != table:
